@@ -597,6 +597,32 @@ def r8_loop(ctx, prog, m):
     blank = [st for st in ast.walk(lp) if isinstance(st, ast.Assign) and
              isinstance(st.targets[0], ast.Subscript) and
              norm(st.value) in ("np.nan", "numpy.nan")]
+    # pixels outside the group marked with a value that a pixel can have
+    NAN = ("np.nan", "numpy.nan", "float('nan')")
+    sentinel = [st for st in ast.walk(lp) if isinstance(st, ast.Assign) and (
+        (isinstance(st.targets[0], ast.Subscript) and
+         isinstance(st.value, ast.Constant) and
+         isinstance(st.value.value, (int, float)) and
+         not isinstance(st.value.value, bool) and
+         m.label_compare_in_defs(st.targets[0].slice)) or
+        (isinstance(st.value, ast.Call) and
+         norm(st.value.func) in ("np.where", "numpy.where") and
+         len(st.value.args) == 3 and
+         isinstance(st.value.args[1], ast.Constant) and
+         not isinstance(st.value.args[1].value, bool) and
+         m.label_compare_in_defs(st.value.args[0])))]
+    for st in sentinel:
+        ctx.check("C02-R8", fi, "out-of-group pixels marked with " +
+                  norm(st, 60), False,
+                  "pixels outside the group are marked with the number %s, "
+                  "which a pixel of the group can have as its value (a zero "
+                  "pixel on a non-zero background is significant): "
+                  "membership must be marked with NaN and read with "
+                  "isfinite" % (norm(st.value) if isinstance(
+                      st.value, ast.Constant) else norm(st.value.args[1])),
+                  node=st)
+    if sentinel and not blank:
+        return
     for st in blank:
         base = st.targets[0].value
         defs = [d for d in ast.walk(lp) if isinstance(d, ast.Assign) and
